@@ -241,7 +241,11 @@ def real_pathrun(case, lib):
             neg = Z.is_not(cond) or Z.is_distinct(cond)
             inner = cond.arg(0) if Z.is_not(cond) else cond
             if (Z.is_eq(inner) or Z.is_distinct(inner)) and inner.num_args() == 2 and Z.is_bv(inner.arg(1)):
-                k0 = key_id(inner.arg(1))
+                # z3 orders the arguments of an equality itself (numerals first): key0 is the side
+                # that is not the key being loaded
+                a0, a1 = inner.arg(0), inner.arg(1)
+                lk = kterms[cur[0]]
+                k0 = key_id(a0 if (lk is not None and a1.eq(lk) and not a0.eq(lk)) else a1)
                 d = rec.setdefault(cur[0], {})
                 if res == Z.unsat:
                     d[k0] = 0 if neg else 1     # check(key != key0) unsat: MustEq; check(key == key0) unsat: MustNeq
@@ -357,7 +361,7 @@ def real_pathrun(case, lib):
         z, chunk, kid, kv, _k = decoded[repr(op[1])]
         minp += [0 if op[0] == "store" else 1, chunk[0], chunk[1], chunk[2], kid or 0, kv] + ([op[2]] if op[0] == "store" else [])
     return {"model_input": minp, "results": results, "path": path, "other_conditions": other, "new_keys_at_runtime": nk - n0,
-            "spec_fails": spec_fails}
+            "spec_fails": spec_fails, "oracle_record": {str(t): dict(d) for t, d in rec.items()}}
 
 
 def parse_model_pathrun(out):
